@@ -1,15 +1,16 @@
-\* generator for T->I replay (-simulate): all resources jointly, 4 groups, 2 roots
+\* generator for T->I replay (-simulate): all resources jointly, 4 groups, 2 roots; the request domain is kept
+\* small because -simulate enumerates ALL successors of every visited state
 SPECIFICATION Spec
 CONSTANTS
   MaxGroups = 4
   MaxDepth = 3
   MaxRoots = 2
   NCPU = 3
-  MemVals = {1, 2, 3, 4}
-  ThrVals = {1, 2, 3, 4}
-  CpuCounts = {0, 1, 2}
-  CpuPcts = {50, 100}
-  Cores = {0, 1, 2}
+  MemVals = {1, 3}
+  ThrVals = {2}
+  CpuCounts = {0, 2}
+  CpuPcts = {100}
+  Cores = {0, 1}
   OtherVals = {FALSE, TRUE}
   Paths = {"direct", "merged"}
 INVARIANTS TypeOK InvMem InvThr InvSet InvFitsOrNamed
